@@ -214,6 +214,20 @@ def run_real(case):
                 facts.append({'uid': uid, 'src': paths.index(p), 'tag': r.tag,
                               'seq': built.def_index[seq] if seq is not None else None,
                               'sec': sec})
+        # results carrying the start/body/end tag of a sequence search are results OF that
+        # search (whether or not the part stores its contents): they must be reachable through
+        # the sequence lookups, i.e. know their sequence
+        orphans = []
+        all_tags = [d.get('tag') for d in scn['defs']]
+        for i, d in enumerate(scn['defs']):
+            if d['type'] != 'seq' or all_tags.count(d['tag']) != 1:
+                continue
+            derived = {f"{d['tag']}-{part}" for part in ('start', 'body', 'end')}
+            if derived & set(all_tags):
+                continue
+            for f in facts:
+                if f['tag'] in derived and f['seq'] != i:
+                    orphans.append([f['tag'], f['src'], f['seq']])
         regd = sorted({r[0] for r in scn['regs']})
         reg_tags = sorted({scn['defs'][i]['tag'] for i in regd
                            if scn['defs'][i].get('tag') is not None})
@@ -235,7 +249,7 @@ def run_real(case):
                 order.append(r[0])
         tagids = {t: [i for i in order if scn['defs'][i].get('tag') == t] for t in reg_tags}
         return {'obs': obs, 'batches': batches, 'npaths': len(paths), 'tags': tags,
-                'reg_tags': reg_tags, 'seqidx': seqidx, 'tagids': tagids}
+                'reg_tags': reg_tags, 'seqidx': seqidx, 'tagids': tagids, 'orphans': orphans}
     finally:
         shutil.rmtree(tmpdir, ignore_errors=True)
 
@@ -318,6 +332,11 @@ def canon_sections(ans):
 def spec_check(impl):
     """ the property stated on the per-path lists the collection itself returns """
     obs = impl['obs']
+    if impl.get('orphans'):
+        t, src, seq = impl['orphans'][0]
+        return (f"a result tagged {t!r} (path {src}) reports sequence {seq}: it belongs to no "
+                "section, so the sequence lookups do not partition the results of that "
+                f"sequence search ({len(impl['orphans'])} such results)")
     facts = {f['uid']: f for b in impl['batches'] for f in b}
     per_path = {i: obs['path'][str(i)] for i in range(impl['npaths'])}
     files = obs['files']
